@@ -33,7 +33,8 @@ META = {
              'lash / file:// / percent-encoded URLs, magic-number voxels a'
              't a chunk origin, half of the subprocess cases with PYTHONOP'
              'TIMIZE=1.'
-             " Round 12: header slope 1 with an intercept."),
+             " Round 12: header slope 1 with an intercept."
+             " Round 13: the jpeg encoding (8-bit, 1 or 3 channels)."),
     "trusted_base": ["nibabel (input files)", "vlib/datasets.read_scale"],
     "assumptions": ["RGB inputs and --sharding are outside the all-in-one "
                     "command's options: sharded programs only take part in "
@@ -88,8 +89,13 @@ def cases(draw):
                                     (0.5, 1, 1), (1, 2, 4), (2, 2, 1),
                                     (0.8, 0.8, 1.2)])))
     enc = draw(st.sampled_from([None, None, "raw",
-                                "compressed_segmentation"]))
-    if enc == "compressed_segmentation":
+                                "compressed_segmentation", "jpeg"]))
+    if enc == "jpeg":
+        # (8-bit data with 1 or 3 channels: what the lossy encoding holds;
+        # both pipelines must still agree exactly, decoding is deterministic)
+        stored = "uint8"
+        nch = draw(st.sampled_from([1, 3]))
+    elif enc == "compressed_segmentation":
         stored = draw(st.sampled_from(["uint8", "uint16", "uint32",
                                        "uint64"]))
     else:
@@ -105,7 +111,7 @@ def cases(draw):
                    draw(st.sampled_from([0.0, 1.0, -16.0, 100.0]))]
     mm = draw(st.sampled_from([None, None, None, [0.0, 100.0],
                                [None, 50.0]]))
-    if enc == "compressed_segmentation":
+    if enc in ("compressed_segmentation", "jpeg"):
         # rescaled / scaled values are floating point, which the
         # compressed_segmentation encoding (documented: uint32/uint64 labels)
         # cannot hold: not a valid option set
@@ -393,9 +399,11 @@ def grid_cases():
                 ([2.0, 1.0], None, False), (None, [0.0, 100.0], False),
                 ([1.0, -16.0], None, False)]
     for stored in ("uint8", "int16", "uint16", "float32", "uint32", "uint64"):
-        for enc in (None, "raw", "compressed_segmentation"):
+        for enc in (None, "raw", "compressed_segmentation", "jpeg"):
             if enc == "compressed_segmentation" and stored in (
                     "int16", "float32"):
+                continue
+            if enc == "jpeg" and stored != "uint8":
                 continue
             if stored == "uint64" and enc != "compressed_segmentation":
                 continue
@@ -403,14 +411,16 @@ def grid_cases():
                 for method in (None, "average", "majority", "stride"):
                     for sharded in (False, True):
                         for scaling, mm, ign in mappings:
-                            if enc == "compressed_segmentation" and (
-                                    scaling or mm):
+                            if enc in ("compressed_segmentation",
+                                       "jpeg") and (scaling or mm):
                                 continue
                             k += 1
                             shape = [2, 3, 2]
                             shape[k % 3] = 130
                             out.append({
-                                "shape": shape, "channels": 1 + (k % 5 == 0),
+                                "shape": shape,
+                                "channels": (1, 3)[k % 2] if enc == "jpeg"
+                                else 1 + (k % 5 == 0),
                                 "voxel_sizes": [1, 1, 1], "stored": stored,
                                 "scaling": scaling, "type": typ,
                                 "encoding": enc, "method": method,
